@@ -178,6 +178,30 @@ func corpus(e *ev.Env) {
 			rq("500").key(1), rq("500"), rq("500"), rq("500")))
 	}
 
+	// ---- limiter.New() without any config: Max 5 per minute and client address
+	hist(e, "no-config", tcfg{NoConfig: true, Max: 5, E: 60, NKeys: 2}, steps(
+		rq("200"), rq("200"), rq("200").key(1), rq("200"), rq("200"), rq("200"), rq("200"), rq("200").after(30000),
+		rq("200").key(1), rq("200").after(30000), rq("200"), rq("200").key(1)))
+
+	// ---- the KeyGenerator of the documentation's example returns a view of request memory, and
+	// the requests arrive on one reused RequestCtx (keep-alive): keys stay apart
+	for _, w := range []tcfg{mem(fixedW(2, 3)), sto(fixedW(2, 3)), mem(slidingW(2, 3)), sto(slidingW(2, 3))} {
+		w.KeyView = true
+		hist(e, "key-view-reused-ctx-"+w.algo()+"-"+w.backend(), w.keys(2), steps(
+			rq("200"), rq("200").key(1), rq("200"), rq("200").key(1), rq("200"), rq("200").key(1),
+			rq("200").after(3000), rq("200").key(1), rq("200"), rq("200").key(1)))
+	}
+
+	// ---- a KeyGenerator that takes 1.6 s for one request while the window it started in ends and
+	// other requests open the next one: the late request counts in the window in force when the
+	// generator answers (Retry-After is that window's)
+	for _, w := range []tcfg{mem(fixedW(1, 2)), sto(fixedW(1, 2)), mem(slidingW(2, 2)), sto(slidingW(2, 2))} {
+		slow := rq("200")
+		slow.Async, slow.KeyDelayMs = true, 1600
+		hist(e, "slow-key-generator-across-a-window-"+w.algo()+"-"+w.backend(), w, steps(
+			rq("200"), slow.after(1000), rq("200").after(1000), rq("200"), rq("200").after(1000), rq("200")))
+	}
+
 	// ---- probe, not a verdict: fiber.Storage documents "Empty key or value will be ignored"
 	// for Set. A KeyGenerator that returns "" (the documentation's own example reads a header
 	// that may be absent) therefore is never limited on an external storage.
@@ -223,6 +247,10 @@ func corpus(e *ev.Env) {
 	conc("sched-two-requests-one-slot-fixed", &scen{Cfg: sto(fixedW(1, 3)).keys(2), KeyMax: []int{1, 1}, W: steps(rq("200"), rq("200"))}, 5000)
 	conc("sched-two-requests-one-slot-sliding", &scen{Cfg: sto(slidingW(1, 3)).keys(2), KeyMax: []int{1, 1}, W: steps(rq("200"), rq("200"))}, 5000)
 	conc("sched-refund-races-acquire", &scen{Cfg: sto(fixedW(1, 3)).keys(2).skipFailed(), KeyMax: []int{1, 1}, W: steps(rq("500"), rq("200"))}, 5000)
+	conc("sched-two-take-backs-then-request", &scen{Cfg: sto(fixedW(2, 3)).keys(2).skipFailed(), KeyMax: []int{2, 2}, Level: 1,
+		W: steps(rq("500"), rq("500"), rq("200"))}, 20000)
+	conc("sched-two-take-backs-then-request-sliding", &scen{Cfg: sto(slidingW(2, 3)).keys(2).skipSuccessful(), KeyMax: []int{2, 2}, Level: 1,
+		W: steps(rq("200"), rq("200"), rq("500"))}, 20000)
 	conc("sched-three-requests-two-slots", &scen{Cfg: sto(fixedW(2, 3)).keys(2), KeyMax: []int{2, 2}, Level: 1,
 		Pre: steps(rq("200")), W: steps(rq("200"), rq("200"), rq("200"))}, 20000)
 	conc("sched-sliding-weighted-previous", &scen{Cfg: sto(slidingW(3, 4)).keys(2), KeyMax: []int{3, 3}, Gap: 5000,
